@@ -416,6 +416,13 @@ func (s *Sess) UpdateURR(req *ie.IE) ([]report.USAReport, error) {
 	if !ok {
 		return nil, errors.Errorf("UpdateURR: URR[%#x] not found", id)
 	}
+
+	usars, err := s.rnode.driver.UpdateURR(s.LocalID, req)
+	if err != nil {
+		// nothing was updated: the installed URR keeps measuring, and is
+		// reported, by the method and information it has
+		return nil, err
+	}
 	for _, x := range req.ChildIEs {
 		switch x.Type {
 		case ie.MeasurementMethod:
@@ -429,11 +436,6 @@ func (s *Sess) UpdateURR(req *ie.IE) ([]report.USAReport, error) {
 			urrInfo.ISTM = x.HasISTM()
 			urrInfo.MNOP = x.HasMNOP()
 		}
-	}
-
-	usars, err := s.rnode.driver.UpdateURR(s.LocalID, req)
-	if err != nil {
-		return nil, err
 	}
 	return usars, nil
 }
